@@ -25,7 +25,7 @@ RULE = ("two commits of t(pk, a int, s varchar, x text, v varbinary): first comm
         "binary values over all byte classes; 20% add-column and 15% drop-column second commits; per case 4 byte strings (all 256 byte values reachable) through the literal encoder; "
         "non-trivial = the two commits differ; distinct by case JSON")
 ASSUMPTIONS = ["varchar/text values are valid UTF-8 (invalid UTF-8 cannot be stored in those columns); arbitrary bytes go through varbinary and through the literal encoder directly"]
-REQUIRED_TAGS = ["added", "removed", "modified", "null-to-value", "value-to-null", "str-quote", "str-backslash", "str-newline", "str-nul", "str-ctrlz", "binary",
+REQUIRED_TAGS = ["rename", "modify", "renmod", "change", "needs-new-type", "str-backslash-only", "lit-backslash-only", "added", "removed", "modified", "null-to-value", "value-to-null", "str-quote", "str-backslash", "str-newline", "str-nul", "str-ctrlz", "binary",
                  "addcol", "dropcol", "empty-diff", "lit-highbyte"]
 
 TEXT_ALPHA = [b"a", b"b", b"'", b'"', b"\\", b"\n", b"\r", b"\t", b"\x00", b"\x1a", b"\x08", b"%", b"_", b"\xc3\xa9", b" ", b";", b"`", b"--", b"#", b"/*", b"\\n", b"''", b"\\'"]
@@ -55,7 +55,7 @@ COLS = ["a", "s", "x", "v"]
 
 def gen_one(rng):
     r = rng.random()
-    schema = "addcol" if r < 0.2 else ("dropcol" if r < 0.35 else "")
+    schema = "addcol" if r < 0.15 else ("dropcol" if r < 0.27 else ("rename" if r < 0.33 else ("modify" if r < 0.39 else ("renmod" if r < 0.47 else ("change" if r < 0.52 else "")))))
     a = {}
     for k in rng.sample(range(1, 8), rng.randint(0, 6)):
         a[k] = [_cell(rng, c) for c in COLS]
@@ -77,6 +77,13 @@ def gen_one(rng):
     elif schema == "dropcol":
         for k in b:
             b[k] = b[k][1:]
+    elif schema in ("modify", "renmod", "change"):
+        # values that only fit the new type
+        for k in list(b):
+            if rng.random() < 0.6:
+                b[k][0] = {"i": rng.choice([6000000000, -5000000000, 2147483648])}
+        if not b or rng.random() < 0.3:
+            b[rng.randrange(1, 8)] = [{"i": 6000000000}] + [_cell(rng, c) for c in COLS[1:]]
     strs = []
     for _ in range(4):
         q = rng.random()
@@ -90,7 +97,14 @@ def gen_one(rng):
 def gen_cases(rng, tier):
     n = 260 if tier == "quick" else 6000
     fixed = {"a": [], "b": [], "schema": "", "strs": [list(range(0, 64)), list(range(64, 128)), list(range(128, 192)), list(range(192, 256))]}
-    return [fixed] + [gen_one(rng) for _ in range(n)]
+    # a value with backslashes and none of the other escaped characters, at the function level and through dolt_patch
+    bs = list(b"C:\\new\\table")
+    fixed2 = {"a": [{"k": 1, "c": [{"i": 1}, {"s": [97], "k": "s"}, None, None]}],
+              "b": [{"k": 1, "c": [{"i": 1}, {"s": bs, "k": "s"}, {"s": list(b"\\"), "k": "s"}, None]}, {"k": 2, "c": [None, {"s": list(b"a\\b"), "k": "s"}, None, None]}],
+              "schema": "", "strs": [bs, list(b"\\"), list(b"x\\ny"), list(b"\\0")]}
+    fixed3 = {"a": [{"k": 1, "c": [{"i": 1}, None, None, None]}], "b": [{"k": 1, "c": [{"i": 6000000000}, None, None, None]}], "schema": "renmod", "strs": []}
+    fixed4 = dict(fixed3, schema="change")
+    return [fixed, fixed2, fixed3, fixed4] + [gen_one(rng) for _ in range(n)]
 
 
 # ---- canonical values and interning ----
@@ -117,6 +131,23 @@ class Intern:
 
     def row(self, cells):
         return cq_list(self.cell(c) for c in cells)
+
+
+def _cols(mode, side):
+    a = (1, 1, 1)
+    if side == "b":
+        if mode == "rename":
+            a = (1, 6, 1)
+        elif mode == "modify":
+            a = (1, 1, 2)
+        elif mode in ("renmod", "change"):
+            a = (1, 6, 2)
+    cols = [a, (2, 2, 3), (3, 3, 4), (4, 4, 5)]
+    if side == "b" and mode == "addcol":
+        cols.append((5, 5, 1))
+    if side == "b" and mode == "dropcol":
+        cols = cols[1:]
+    return cq_list("{| c_id := %d; c_name := %d; c_ty := %d |}" % c for c in cols)
 
 
 def _content(it, rows):
@@ -151,10 +182,11 @@ def coq_case(case, out):
     a = [(r["k"], [_canon(c) for c in r["c"]]) for r in case["a"]]
     b = [(r["k"], [_canon(c) for c in r["c"]]) for r in case["b"]]
     schema = bool(case["schema"])
-    inp = "{| i_a := %s; i_b := %s; i_schema := %s; i_strs := %s |}" % (_content(it, a), _content(it, b), cq_bool(schema), cq_list(cq_bytes(s) for s in case["strs"]))
+    inp = "{| i_a := %s; i_b := %s; i_schema := %s; i_sa := %s; i_sb := %s; i_strs := %s |}" % (
+        _content(it, a), _content(it, b), cq_bool(schema), _cols(case["schema"], "a"), _cols(case["schema"], "b"), cq_list(cq_bytes(s) for s in case["strs"]))
     o = out.get("obs")
     if o is None or out.get("err") or out.get("panic"):
-        obs = "{| o_diff := []; o_diffsys := []; o_counts := (9,9,9); o_rt := []; o_rt_ok := false; o_lits := [] |}"
+        obs = "{| o_diff := []; o_diffsys := []; o_counts := (9,9,9); o_ddl := (9,9,9,9); o_rt := []; o_rt_ok := false; o_lits := [] |}"
         return "(%s, %s)" % (inp, obs)
     if schema:
         d1 = d2 = "[]"
@@ -166,7 +198,11 @@ def coq_case(case, out):
     rows2_ok = [[("I%d" % k)] + cs for k, cs in b] == o["rows2"] and [[("I%d" % k)] + cs for k, cs in a] == o["rows1"]
     ok = o["rtdata"] and o["rtschema"] and not o["rterrs"] and not o.get("note") and rows2_ok
     lits = cq_list("(%s, %s)" % (cq_bytes(l["lit"]), ("Some %s" % cq_bytes(l["dec"] or [])) if l["ok"] else "None") for l in o["lits"])
-    obs = "{| o_diff := %s; o_diffsys := %s; o_counts := %s; o_rt := %s; o_rt_ok := %s; o_lits := %s |}" % (d1, d2, counts, _content(it, rt), cq_bool(ok), lits)
+    st = o["stmts"]
+    ddl = "(%d, %d, %d, %d)" % (st.count("alter-add"), st.count("alter-drop"), st.count("alter-rename"), st.count("alter-modify"))
+    if st.count("alter") or st.count("other"):
+        ddl = "(9, 9, 9, 9)"
+    obs = "{| o_diff := %s; o_diffsys := %s; o_counts := %s; o_ddl := %s; o_rt := %s; o_rt_ok := %s; o_lits := %s |}" % (d1, d2, counts, ddl, _content(it, rt), cq_bool(ok), lits)
     return "(%s, %s)" % (inp, obs)
 
 
@@ -187,10 +223,17 @@ def classify(case, out):
         tags.add("empty-diff")
     if case["schema"]:
         tags.add(case["schema"])
+        if case["schema"] in ("modify", "renmod", "change") and any(r["c"][0] and abs(r["c"][0].get("i", 0)) > 2147483647 for r in case["b"]):
+            tags.add("needs-new-type")
+    esc = b"'\"\x00\x08\n\r\t\x1a"
+    if any(92 in st and not any(ch in esc for ch in st) for st in case["strs"]):
+        tags.add("lit-backslash-only")
     for r in case["b"]:
         for c in r["c"]:
             if c and c.get("k") == "s":
                 bs = bytes(c.get("s") or [])
+                if b"\\" in bs and not any(ch in esc for ch in bs):
+                    tags.add("str-backslash-only")
                 for nm, ch in (("str-quote", b"'"), ("str-backslash", b"\\"), ("str-newline", b"\n"), ("str-nul", b"\x00"), ("str-ctrlz", b"\x1a")):
                     if ch in bs:
                         tags.add(nm)
